@@ -27,6 +27,29 @@ pub fn chunk_with(cfg: &Cfg, src: SimSource) -> Result<End<Result<Vec<(u64, Vec<
     })
 }
 
+/// A consumer that does not give up at an error: it notes it and polls again, until the stream
+/// says it is over. Returns the chunks and the number of errors seen.
+pub fn chunk_through_errors(cfg: &Cfg, src: SimSource, max_errors: usize) -> Result<End<(Vec<(u64, Vec<u8>)>, usize)>, String> {
+    let config = cfg.to_config();
+    run_async(async move {
+        let mut chunker = config.new_chunker(src);
+        let mut out = Vec::new();
+        let mut errors = 0;
+        while let Some(r) = chunker.next().await {
+            match r {
+                Ok((off, chunk)) => out.push((off, chunk.data().to_vec())),
+                Err(_) => {
+                    errors += 1;
+                    if errors > max_errors {
+                        break;
+                    }
+                }
+            }
+        }
+        (out, errors)
+    })
+}
+
 fn describe(r: &Result<End<Result<Vec<(u64, Vec<u8>)>, String>>, String>) -> String {
     match r {
         Ok(End::Done(Err(e))) => format!("error {}", e),
@@ -96,6 +119,54 @@ pub fn run(ctx: &mut Ctx) {
     if off != data.len() {
         ctx.fail("tiling", format!("chunks cover {} of {} bytes", off, data.len()));
         return;
+    }
+    // (i') a source with hiccups: some reads fail with a transient error (EINTR, EAGAIN, a
+    // timeout) and the next read goes on where the stream was. A consumer that polls again after
+    // each error item must get the same chunks, and the stream must not call itself finished
+    // before the input is -- neither silently (an error taken for the end of the input) nor
+    // after having reported the error
+    if !data.is_empty() && gen::chance(1, 3) {
+        let n = 1 + gen::draw(3) as usize;
+        let kinds = [std::io::ErrorKind::Interrupted, std::io::ErrorKind::WouldBlock, std::io::ErrorKind::TimedOut, std::io::ErrorKind::Interrupted];
+        let mut at: Vec<(usize, std::io::ErrorKind)> = (0..n)
+            .map(|_| {
+                let pos = match gen::draw(4) {
+                    0 => 0,
+                    1 => data.len() - gen::draw(data.len().min(2000) as u32 + 1) as usize,
+                    _ => gen::draw(data.len() as u32 + 1) as usize,
+                };
+                (pos, *gen::t(|t| t.pick(&kinds)))
+            })
+            .collect();
+        at.sort_by_key(|a| a.0);
+        let mut src = SimSource::drawn(data.clone());
+        src.fail_at = Some(at[0]);
+        src.more_faults = at[1..].to_vec();
+        let desc = format!("transient read errors at {:?}", at);
+        match chunk_through_errors(&cfg, src, n) {
+            Ok(End::Done((chunks, errors))) => {
+                simkit::count("probe:chunker-polled-on-after-transient-read-errors");
+                let ts = shape(&chunks);
+                if ts != ps {
+                    let i = ps.iter().zip(ts.iter()).position(|(a, b)| a != b).unwrap_or(ps.len().min(ts.len()));
+                    let class = if errors == 0 { "read-error-swallowed" } else { "chunks-after-read-error" };
+                    ctx.fail(class, format!("{}: the consumer saw {} error item(s), polled on to the end of the stream and got {} chunks where an undisturbed read gives {}; chunk #{}: {:?} vs {:?} ({:?}, source {})", desc, errors, ts.len(), ps.len(), i, ts.get(i), ps.get(i), cfg, gen::fp(&data)));
+                    return;
+                }
+                if chunks.iter().zip(plain.iter()).any(|(a, b)| a.1 != b.1) {
+                    ctx.fail("chunks-after-read-error", format!("{}: chunk bytes differ from those of an undisturbed read ({:?}, source {})", desc, cfg, gen::fp(&data)));
+                    return;
+                }
+            }
+            other => {
+                let what = match &other {
+                    Ok(e) => e.kind().to_string(),
+                    Err(p) => format!("panic at {}", p),
+                };
+                ctx.fail("sched-outcome", format!("chunking {:?} with {} did not finish: {}", cfg, desc, what));
+                return;
+            }
+        }
     }
     // (iii) the definition of where boundaries fall
     let expect = ref_chunks(&cfg, &data);
